@@ -75,7 +75,20 @@ type c04Member struct {
 	// canonical bytes instead of the bytes sent, 64 complaint key-sym. Signatures (R | s) and complaint proofs
 	// (A1 | A2 | z) have a fixed 33-byte slot per point, so R, A1, A2 cannot be re-encoded; MsgConfirm carries no point.
 	Alt int `json:"alt,omitempty"`
+	// Two: the member sends TWO round-3 messages (bit field): 1 on, 2 the second message is of the other kind than the
+	// first (complain after confirm / confirm after complain; else a fresh message of the same kind), 4 block boundary
+	// between the two, 8 the pair goes first and the members with a justified complaint speak last, in a later block,
+	// 16 if the member has no deviation its first message is a complaint about a (normally correct) share.
+	Two int `json:"two,omitempty"`
 }
+
+const (
+	twoOn         = 1
+	twoOther      = 2
+	twoCut        = 4
+	twoVictimLate = 8
+	twoComplain   = 16
+)
 
 const (
 	altOneTime = 4
@@ -213,6 +226,23 @@ func genC04(rt *rapid.T) c04Case {
 			c.Members[(first+j)%n].Alt = a
 		}
 	}
+	// one member speaks twice in round 3
+	if gen.Chance(rt, "twocase", 3, 10) {
+		two := twoOn
+		if gen.Chance(rt, "twoother", 7, 10) {
+			two |= twoOther
+		}
+		if gen.Chance(rt, "twocut", 1, 2) {
+			two |= twoCut
+		}
+		if gen.Chance(rt, "twolate", 3, 5) {
+			two |= twoVictimLate
+		}
+		if gen.Chance(rt, "twocomplain", 1, 2) {
+			two |= twoComplain
+		}
+		c.Members[gen.Uniform(rt, "twowho", n)].Two = two
+	}
 	cutDen := gen.OneOf(rt, "cutden", 0, 0, 8, 4, 2)
 	for r := 0; r < 3; r++ {
 		for i := 0; i < n; i++ {
@@ -342,6 +372,7 @@ type mem struct {
 	attempts int
 	inFlight [4]bool // a well-formed round-k submission was already produced
 	lastMsg  [4]*item
+	forceR3  string  // first round-3 message of a member without deviation (Two&twoComplain)
 	altOK    [4]bool // round k: a message with alternatively encoded points was accepted
 	noAlt    [4]bool // round k: the alternative encoding was refused, the member now sends the canonical bytes
 	strict   bool    // follows the protocol in every respect
@@ -396,6 +427,7 @@ type item struct {
 	// been sent); the model follows the tx result.
 	eitherOK bool
 	altKinds []string
+	second   bool // the member's second round-3 message (Two)
 }
 
 type world struct {
@@ -424,6 +456,8 @@ type world struct {
 	reached      [5]bool
 	devApplied   int
 	finalAtRound int
+	deferred     string // a second round-3 message of a member was accepted: reported at the end unless a downstream guarantee breaks first
+	doubleAt     int64  // height of the (first) block that carried a second round-3 message
 
 	pending []*item
 	txs     [][]byte
@@ -1035,6 +1069,9 @@ func (w *world) buildR3(m *mem, deviate bool) *item {
 	devk := ""
 	if deviate {
 		devk = m.spec.R3
+	}
+	if devk == "" && m.forceR3 != "" {
+		devk = m.forceR3
 	}
 	// the daemon's share handling (hook) ...
 	own, complaints, err := group.VerifGetOwnPrivKey(m.dkg, w.gr)
